@@ -126,7 +126,14 @@ def _sk(v):
     if isinstance(v, T):
         s = v._s
         if s is None:
-            s = v._s = _fmt(v, _sk)
+            s = _fmt(v, _sk)
+            if len(s) > 400:
+                # the key only has to be a deterministic total order that equal terms share: for a large term, its beginning and
+                # a digest of the whole (a term with much sharing would otherwise carry its fully expanded text on every node --
+                # gigabytes for the transaction builders)
+                import hashlib
+                s = s[:120] + "#" + hashlib.blake2b(s.encode("utf8", "surrogatepass"), digest_size=12).hexdigest()
+            v._s = s
         return s
     return _fmt(v, _sk)
 
